@@ -76,12 +76,13 @@ pub fn run(cases_path: &str, out_path: &str) {
                 let c64: Vec<i64> = va(&c["c64"]).iter().map(vi).collect();
                 let cep: Vec<f64> = c64.iter().map(|x| *x as f64 / 64.0).collect();
                 let beta = vi(&c["beta8"]) as f64 / 8.0;
-                let h0 = match pulse_response(cep.len(), 0, false, rate, alpha, 0.0, &cep) {
+                let (h0, first0) = match pulse_responses(cep.len(), 0, false, rate, alpha, 0.0, &cep) {
                     Ok(h) => h,
                     Err(p) => return json!({"ev": "panic", "in": "vocoder", "msg": p, "input": c}),
                 };
                 if vs(&c["kind"]) == "mcep" {
-                    return json!({"ev": "grid", "c64": c64, "meas": grid33(&h0, alpha), "alpha": c["alpha"], "rate": rate});
+                    // without postfilter the very first pulse of a fresh vocoder must realise the spectrum as well
+                    return json!({"ev": "grid", "c64": c64, "meas": grid33(&h0, alpha), "meas1": grid33(&first0, alpha), "alpha": c["alpha"], "rate": rate});
                 }
                 let hb = match pulse_response(cep.len(), 0, false, rate, alpha, beta, &cep) {
                     Ok(h) => h,
@@ -106,10 +107,11 @@ pub fn run(cases_path: &str, out_path: &str) {
                     Err(p) => return json!({"ev": "panic", "in": "vocoder(lsp)", "msg": p, "input": c}),
                 };
                 let finite = h.iter().all(|x| x.is_finite()) && first.iter().all(|x| x.is_finite());
-                // decay is judged on the response to the very first pulse (filter at rest, no overlapping tails):
-                // in the periodic steady state a slowly decaying resonance need not be weaker at the end of a period
-                let q = first.len() / 4;
-                let decay = finite && energy(&first[first.len() - q..]) < energy(&first[..q]);
+                // "decaying" is judged as boundedness over successive periods: a stable filter driven by three identical pulses
+                // can at most superpose three tails (energy <= 9x that of the first period, whatever its Q and however long it
+                // rings), an unstable one grows geometrically.  (A cascade of high-Q sections peaks late - t^2 e^(-t/tau) - so
+                // comparing the ends of one period, as earlier versions did, is wrong.)
+                let decay = finite && energy(&h) <= 25.0 * energy(&first).max(1e-300);
                 // reference ln|H| = ln K - (s/2) (ln N - (m+2) ln 4) from the specification's exact N
                 let refs: Vec<f64> = va(&c["grid"]).iter().map(|p| lnk - 0.5 * stage as f64 * ((vi(&p[1]) as f64).ln() - (m as f64 + 2.0) * 4f64.ln())).collect();
                 let peak = refs.iter().cloned().fold(f64::NEG_INFINITY, f64::max);
@@ -118,15 +120,21 @@ pub fn run(cases_path: &str, out_path: &str) {
                 let tail: f64 = h[h.len() / 2..].iter().map(|x| x.abs()).sum();
                 let noise = if tail > 0.0 && finite { ((peak - tail.ln()) * 1e3).round().clamp(-2.0e9, 2.0e9) as i64 } else { 2_000_000_000 };
                 let mut dev = Vec::new();
+                let mut dev1 = Vec::new();
                 let mut rel = Vec::new();
+                let q6 = |d: f64| if d.is_finite() { d.round().clamp(-2.0e9, 2.0e9) as i64 } else { 2_000_000_000 };
                 for (p, r) in va(&c["grid"]).iter().zip(&refs) {
                     let theta = (vi(&p[0]) as f64 / 8.0).acos();
                     let meas = if finite { dft_logmag(&h, unwarp(theta, alpha)) } else { f64::NAN };
-                    let d = (meas - r) * 1e6;
-                    dev.push(if d.is_finite() { d.round().clamp(-2.0e9, 2.0e9) as i64 } else { 2_000_000_000 });
+                    let meas1 = if finite { dft_logmag(&first, unwarp(theta, alpha)) } else { f64::NAN };
+                    dev.push(q6((meas - r) * 1e6));
+                    dev1.push(q6((meas1 - r) * 1e6));
                     rel.push(((peak - r) * 1e3).round() as i64);
                 }
-                json!({"ev": "lsp", "m": m, "stage": stage, "dev": dev, "rel": rel, "noise": noise, "finite": finite, "decay": decay,
+                // truncation floor of the first-pulse response (nothing precedes it: only its own cut-off tail is missing)
+                let tail1: f64 = first[first.len() / 2..].iter().map(|x| x.abs()).sum();
+                let noise1 = if tail1 > 0.0 && finite { ((peak - tail1.ln()) * 1e3).round().clamp(-2.0e9, 2.0e9) as i64 } else { 2_000_000_000 };
+                json!({"ev": "lsp", "m": m, "stage": stage, "dev": dev, "dev1": dev1, "rel": rel, "noise": noise, "noise1": noise1, "finite": finite, "decay": decay,
                        "ks": ks, "alpha": c["alpha"], "rate": rate, "loggain": lg, "gain8": c["gain8"]})
             }
             k => die(&format!("unknown spectral case kind {}", k)),
